@@ -2,7 +2,7 @@ package main
 
 // Translator validation (thorough tier of C01): the trust in "go/ssa lowering +
 // vcheck's encoder = what the gc compiler runs" is sampled by co-simulation.
-// For N concrete (opcode, state, memory) samples the real compiled cpu.Step()
+// For N concrete (opcode, state, memory) samples the real compiled cpu.executeOne()
 // is run through `go test -overlay`, and the very same executor that generates
 // the VCs is run on constant inputs (symbolic execution of constants is
 // interpretation: every result must fold to a constant).  Every architectural
@@ -270,7 +270,7 @@ func (r *Run) translatorValidation(ld *Loaded, n int) {
 				fmt.Fprintf(&sb, "\t\t%s = %d\n", p, s.leaf[p])
 			}
 		}
-		sb.WriteString("\t\tcpu.Memory = &VsRecMem{G: g}\n\t\tcpu.IO = &VsRecIO{G: g}\n\t\toldCPU := *cpu\n\t\toldG := new(VGhost)\n\t\t*oldG = *g\n\t\tcpu.Step()\n")
+		sb.WriteString("\t\tcpu.Memory = &VsRecMem{G: g}\n\t\tcpu.IO = &VsRecIO{G: g}\n\t\toldCPU := *cpu\n\t\toldG := new(VGhost)\n\t\t*oldG = *g\n\t\tcpu.executeOne()\n")
 		fmt.Fprintf(&sb, "\t\tfmt.Printf(\"TV %d", k)
 		var args []string
 		for _, p := range paths {
@@ -326,7 +326,7 @@ func (r *Run) translatorValidation(ld *Loaded, n int) {
 		}
 	}
 	r.Notes["translator_validation"] = map[string]interface{}{"samples": len(samples), "agree": agree, "disagree": disagree,
-		"what": "cpu.Step() compiled by gc vs the VC-generating executor run on constants: every CPU leaf, the seeded memory cells, the spec's difference mask"}
+		"what": "cpu.executeOne() compiled by gc vs the VC-generating executor run on constants: every CPU leaf, the seeded memory cells, the spec's difference mask"}
 	if disagree > 0 || len(got) == 0 {
 		r.engineErr = append(r.engineErr, "translator validation failed: "+firstBad+" "+truncate(out, 400))
 	}
